@@ -155,8 +155,7 @@ def check_tagging_task(run_tagging_task, specs, region):
         for i, (ci, site) in enumerate(specs):
             if ci is None:
                 continue
-            if site >= fe:
-                break
+            # ownership only: molecules are not guaranteed to arrive in site order (soft clips, reverse reads), so no early stop
             if ci == 0 and start <= site < end:
                 exp.append(i)
         if rec.get('contig') != 'c0' or rec.get('start') != fs or rec.get('end') != fe:
